@@ -196,9 +196,12 @@ def gen_case(rng, tier, shape_class=None, meta_mode=None, orders=None, jitter=No
         # one file (the first file of a later volume when there is one) gets ImageOrientationPatient[2] += jitter:
         # its slice indicator is unchanged (x origin 0), the stack accepts it (|jitter| < 5e-5)
         cand = [f for f in files if f['cell'][1] + f['cell'][2] > 0] or files[1:] or files
-        f = rng.choice(cand)
-        f['iop'] = list(f['iop'])
-        f['iop'][2] += jitter
+        f0 = rng.choice(cand)
+        # every file of that volume, so that the volume's first file (whatever the final order) carries the jitter
+        for f in files:
+            if f['cell'][1:] == f0['cell'][1:]:
+                f['iop'] = list(f['iop'])
+                f['iop'][2] += jitter
     case = {'kind': '%s/%s/%dd%s' % (mode, cfg['mode'], 3 + (T > 1 or V > 1) + (V > 1), '-t1' if (T == 1 and V > 1) else ''),
             'dims': dims, 'orient': cfg['orient'], 'direction': cfg['direction'], 'plan': plan,
             'meta_mode': mode, 'vo': rng.choice(orders or ALL_ORDERS), 'via': rng.choice(['wrapper', 'nifti']),
@@ -327,6 +330,8 @@ def run_conv(case):
         _, _, _, ornt = dcmstack.reorder_voxels(np.zeros(tuple(shp[:3])), twin.get_affine().copy(), vo)
         perm = [int(p) for p, f in ornt]
     obs['perm'] = perm
+    obs['def_excl'] = list(dcmstack.default_key_excl_res)
+    obs['def_incl'] = list(dcmstack.default_key_incl_res)
     # the filter's verdict for every key any file carries
     filt = st._meta_filter
     allkeys = sorted(set(k for d in truth.values() for k in d))
@@ -338,10 +343,9 @@ def run_conv(case):
             w = dcmmeta.NiftiWrapper(st.to_nifti(vo, embed_meta=True))
     except Exception as e:
         nm = type(e).__name__
-        err = X.ERRMAP.get(nm) or L.ERRMAP.get(nm)
-        if err is None:
-            raise
-        obs['err'] = err
+        # every exception of the conversion itself is an observation (the property promises a result for every
+        # complete grid): classes outside the model's enum are reported as ECrash
+        obs['err'] = X.ERRMAP.get(nm) or L.ERRMAP.get(nm) or 'ECrash'
         obs['exc'] = '%s: %s' % (nm, str(e)[:200])
         obs['order'] = [wid[id(fi[0])] for fi in st._files_info]
         return obs
@@ -455,9 +459,12 @@ def oracle_keys(case, obs):
             return 'key %r is not filtered and has a value in some file but is missing from the extension' % k
     mode = case['filter']['mode']
     if mode in ('default', 'default+extra'):
-        import dcmstack                              # only the two literal lists (also read by the translator)
-        excl = list(dcmstack.default_key_excl_res) + case['filter'].get('xe', [])
-        incl = list(dcmstack.default_key_incl_res) + case['filter'].get('xi', [])
+        excl = list(obs['def_excl']) + case['filter'].get('xe', [])       # the lists the implementation really uses
+        incl = list(obs['def_incl']) + case['filter'].get('xi', [])
+        # what the property names explicitly must be on the exclude list
+        for nm in ('Patient', 'Physician', 'Date', 'UID', 'Institution'):
+            if nm not in obs['def_excl']:
+                return 'default exclude list lacks %r' % nm
         for k in sorted(have):
             if any(re.search(e, k) for e in excl) and not any(re.search(i, k) for i in incl):
                 return 'privacy: key %r (%s) matches an exclude pattern and no include pattern but survives' % (k, have[k])
@@ -517,10 +524,11 @@ def gen_stream(rng, tier):
         c['kind'] = 'jitter-tiny/' + c['kind']
         cases.append(c)
     # N9 (open finding): orientation perturbed inside the stack's own tolerance but outside np.allclose's
-    for i in range(4 if tier == 'quick' else 12):
-        c = gen_case(rng, tier, shape_class='5d' if i % 2 else None, meta_mode='hand', jitter=rng.choice([2.0 ** -17, -2.0 ** -17]))
-        if c['dims'][1] * c['dims'][2] == 1 or c['dims'][0] == 1:
-            continue
+    for i in range(3 if tier == 'quick' else 12):
+        while True:
+            c = gen_case(rng, tier, shape_class='5d' if i % 2 else None, meta_mode='hand', jitter=rng.choice([2.0 ** -17, -2.0 ** -17]))
+            if c['dims'][1] * c['dims'][2] > 1 and c['dims'][0] > 1:
+                break
         c['kind'] = 'orient_lo(N9)'
         c['n9'] = True
         c['filter'] = {'mode': 'none'}
